@@ -31,6 +31,14 @@ CLAUSE_OWNERS = {
         'speed1': ['C08'],                                # speed == 1 leaves the rounded model durations
         'scaled-total': ['C08'],                          # total = round(sum of means / speed)
     },
+    'engine': {                                           # Engine::generator, one clause per component it hands on
+        'wiring-frame-period': ['C01'],                   # the generator's frame period is the condition's, cursor at 0
+        'wiring-vocoder': ['C01', 'C14', 'C16'],          # Vocoder::new arguments (orders, stage, rate, alpha, beta, volume, frame period)
+        'wiring-spectrum': ['C09', 'C11', 'C12', 'C15', 'C17'],   # stream 0: its own GV weight / threshold / model, the dispatched durations
+        'wiring-lf0': ['C09', 'C11', 'C12', 'C15', 'C17'],        # stream 1, with the half tone applied to its model
+        'wiring-lpf': ['C09', 'C11', 'C12', 'C15', 'C17'],        # stream 2 when the voice has one
+        'wiring-no-lpf-stream': ['C01'],                  # two-stream voices: one empty low-pass row per frame
+    },
     'labels': {
         'gap-fill': ['C09'],                              # missing times filled from the neighbours
     },
